@@ -70,6 +70,14 @@ Definition cache_blind (o : op V M IX) : bool :=
   | _ => true
   end.
 
+(** results of a history, position by position, except where the operation observes the cache itself *)
+Fixpoint outs_agree (ops : list (op V M IX)) (x y : list (out V)) : Prop :=
+  match ops, x, y with
+  | [], [], [] => True
+  | o :: r, a :: x', b :: y' => (cache_blind o = true -> a = b) /\ outs_agree r x' y'
+  | _, _, _ => False
+  end.
+
 (** a history is disciplined from a given store (C01's [Disciplined]) — restated for two stores at once *)
 Definition both_disciplined (chk : bool) (s1 s2 : store V) (ops : list (op V M IX)) : Prop :=
   Disciplined g sm fx chk s1 ops /\ Disciplined g sm fx chk s2 ops.
